@@ -722,7 +722,7 @@ class PathRunner:
             neg = z3.Not(claim)
             # staged budget: discharges normally take milliseconds; the slow cases are satisfiable queries with
             # quantifiers, for which a bounded-universe search is tried before the full budget is spent
-            r = self._check(neg, timeout=min(1500, self.budget.obl_ms))
+            r = self._check(neg, timeout=min(300, self.budget.obl_ms))
             backend = 'z3'
             if r == z3.unknown:
                 # quantifier instantiation is sensitive to the search order: a few short attempts with fresh solvers and
@@ -783,7 +783,9 @@ class PathRunner:
         try:
             for seed in (0, 1, 2):
                 s = z3.Solver()
-                s.set('timeout', min(4000, self.budget.obl_ms))
+                ms = min(4000, self.budget.obl_ms)
+                s.set('rlimit', int(ms * self.RLIMIT_PER_MS))     # deterministic budget, wall clock only as safety net
+                s.set('timeout', ms * 6)
                 s.set('random_seed', seed)
                 s.add(*self.pc)
                 s.add(neg)
